@@ -162,6 +162,54 @@ theorem removeCommitted_inv {s : Cache} (f : Option Nat) (h : TableInv s) :
   | none => rfl
   | some f => simp only; split <;> rfl
 
+/-! `regCreated` (the Python-side record of a file written inside `incr`'s transaction) touches
+only the `created` list -/
+theorem regCreated_zero (s : Cache) (f : Option Nat) (hd : s.depth = 0) : s.regCreated f = s := by
+  unfold regCreated; cases f <;> simp [hd]
+
+theorem regCreated_cases (s : Cache) (f : Option Nat) :
+    s.regCreated f = s ∨ ∃ g, f = some g ∧ 0 < s.depth ∧ s.regCreated f = { s with created := s.created ++ [g] } := by
+  unfold regCreated
+  cases f with
+  | none => exact .inl rfl
+  | some g =>
+    by_cases hd : s.depth > 0
+    · exact .inr ⟨g, rfl, hd, by simp [hd]⟩
+    · exact .inl (by simp [hd])
+
+@[simp] theorem regCreated_rows (s : Cache) (f : Option Nat) : (s.regCreated f).rows = s.rows := by
+  rcases regCreated_cases s f with h | ⟨g, -, -, h⟩ <;> rw [h]
+@[simp] theorem regCreated_count (s : Cache) (f : Option Nat) : (s.regCreated f).count = s.count := by
+  rcases regCreated_cases s f with h | ⟨g, -, -, h⟩ <;> rw [h]
+@[simp] theorem regCreated_size (s : Cache) (f : Option Nat) : (s.regCreated f).size = s.size := by
+  rcases regCreated_cases s f with h | ⟨g, -, -, h⟩ <;> rw [h]
+@[simp] theorem regCreated_snap (s : Cache) (f : Option Nat) : (s.regCreated f).snap = s.snap := by
+  rcases regCreated_cases s f with h | ⟨g, -, -, h⟩ <;> rw [h]
+@[simp] theorem regCreated_files (s : Cache) (f : Option Nat) : (s.regCreated f).files = s.files := by
+  rcases regCreated_cases s f with h | ⟨g, -, -, h⟩ <;> rw [h]
+@[simp] theorem regCreated_nfile (s : Cache) (f : Option Nat) : (s.regCreated f).nfile = s.nfile := by
+  rcases regCreated_cases s f with h | ⟨g, -, -, h⟩ <;> rw [h]
+@[simp] theorem regCreated_cfg (s : Cache) (f : Option Nat) : (s.regCreated f).cfg = s.cfg := by
+  rcases regCreated_cases s f with h | ⟨g, -, -, h⟩ <;> rw [h]
+@[simp] theorem regCreated_depth (s : Cache) (f : Option Nat) : (s.regCreated f).depth = s.depth := by
+  rcases regCreated_cases s f with h | ⟨g, -, -, h⟩ <;> rw [h]
+@[simp] theorem regCreated_pending (s : Cache) (f : Option Nat) : (s.regCreated f).pending = s.pending := by
+  rcases regCreated_cases s f with h | ⟨g, -, -, h⟩ <;> rw [h]
+@[simp] theorem regCreated_trace (s : Cache) (f : Option Nat) : (s.regCreated f).trace = s.trace := by
+  rcases regCreated_cases s f with h | ⟨g, -, -, h⟩ <;> rw [h]
+@[simp] theorem regCreated_env (s : Cache) (f : Option Nat) : (s.regCreated f).env = s.env := by
+  rcases regCreated_cases s f with h | ⟨g, -, -, h⟩ <;> rw [h]
+@[simp] theorem regCreated_statistics (s : Cache) (f : Option Nat) :
+    (s.regCreated f).statistics = s.statistics := by
+  rcases regCreated_cases s f with h | ⟨g, -, -, h⟩ <;> rw [h]
+@[simp] theorem regCreated_hits (s : Cache) (f : Option Nat) : (s.regCreated f).hits = s.hits := by
+  rcases regCreated_cases s f with h | ⟨g, -, -, h⟩ <;> rw [h]
+@[simp] theorem regCreated_misses (s : Cache) (f : Option Nat) : (s.regCreated f).misses = s.misses := by
+  rcases regCreated_cases s f with h | ⟨g, -, -, h⟩ <;> rw [h]
+
+theorem regCreated_inv {s : Cache} (f : Option Nat) (h : TableInv s) : TableInv (s.regCreated f) :=
+  h.same (by simp) (by simp) (by simp) (by simp)
+
 theorem store_inv {s s' : Cache} {E : Externals} {v : PyVal} {read : Bool} {c : Cols}
     (hst : s.store E v read = .ok (s', c)) (h : TableInv s) : TableInv s' ∧ s'.rows = s.rows := by
   unfold store at hst
